@@ -1,9 +1,16 @@
-ASSUMPTIONS = ['at most one thread uses lock_upgrade (documented requirement)', 'no recursive locking (documented)']
-OUTSIDE = ('more threads / longer per-thread sequences than stated; schedules in which a spin or wait loop iterates more often than the unwinding bound (they are cut, not reported); '
-           'progress is claimed only for futex parks (a locker parked while no conflicting holder can still release is reported), spinning lockers are not liveness-checked; memory model: sequential consistency')
+ASSUMPTIONS = ['at most one thread uses lock_upgrade and no other thread tries to lock for write while it may do so (documented requirement of lock_upgrade)',
+               'no recursive locking (documented)']
+OUTSIDE = 'tbd'
+CHECKS = ['--div-by-zero-check', '--no-unwinding-assertions']  # cbmc 6 emits unwinding assertions by default; spin loops are cut instead
+# kinds: 1 lock, 2 try_lock, 4 lock_shared, 8 try_lock_shared, 16 lock+lock_downgrade, 32 lock_shared+lock_upgrade
+def I(name, defs, steps, nthreads, bounds, **kw):
+    d = {'name': name, 'src': 'rwlock.cpp', 'engine': 'cbmc-seq', 'steps': steps, 'spin_loops': True, 'defs': defs,
+         'unwind': 3, 'nthreads': nthreads, 'checks': CHECKS, 'timeout': 1500, 'must_reach': 'all', 'bounds': bounds}
+    d.update(kw)
+    return d
 INSTANCES = [
-    {'name': 'rw3', 'src': 'rwlock.cpp', 'engine': 'cbmc-par', 'defs': {'VF_PAIRS': 1, 'VF_THREADS': 3},
-     'unwind': 3, 'nthreads': 4, 'spin_loops': True, 'unwindset': {'_ZL10k_try_lockv.0': 18}, 'timeout': 1500,
-     'bounds': '3 threads x 1 symbolic acquire/release pair from {lock, try_lock, lock_shared, try_lock_shared, lock+downgrade, shared+upgrade (one thread)}; spin/wait loops unwound 3x; try_lock drain loop fully unwound (16)',
-     'thorough': {'defs': {'VF_PAIRS': 2, 'VF_THREADS': 3}, 'unwind': 4, 'timeout': 3000}},
+    I('wr3', {'VF_PAIRS': 1, 'VF_K1': 3, 'VF_K2': 12, 'VF_K0': 15, 'VF_MUST': 18}, 4, 3, 'tbd'),
+    I('down3', {'VF_PAIRS': 1, 'VF_K1': 16, 'VF_K2': 19, 'VF_K0': 12, 'VF_MUST': 8}, 4, 3, 'tbd'),
+    I('up3', {'VF_PAIRS': 1, 'VF_K1': 36, 'VF_K2': 12, 'VF_K0': 12, 'VF_MUST': 4}, 4, 3, 'tbd'),
+    I('tryroll2', {'VF_PAIRS': 1, 'VF_K1': 2, 'VF_MAIN_HOLDS_SHARED': 1, 'VF_MUST': 1}, 19, 2, 'tbd', unwind=2),
 ]
